@@ -278,6 +278,9 @@ func (e *c34Env) boundaryPayloads() []c34Payload {
 		// for the tar formats an entry that denotes the root is the recorded finding C05-root-destination)
 		{"root-directory-rpm", []wire.Content{{Dst: "/", Type: "dir"}, c34File(j("bin/tool"), "/usr/bin/tool")}},
 		{"root-directory-rpm", []wire.Content{{Src: j("tree"), Dst: "/", Type: "tree"}, c34File(j("bin/tool"), "/opt/tool")}},
+		// a hidden top-level directory next to its namesake without the dot: two different paths, two sets of members
+		{"dotted-and-undotted-twins", []wire.Content{c34File(j("etc/app.conf"), "/.demo/settings.conf"), c34File(j("etc/app.conf"), "/demo/settings.conf"),
+			c34File(j("bin/tool"), "/..data/tool"), c34File(j("bin/tool"), "/data/tool"), {Dst: "/.cache/", Type: "dir"}, {Dst: "/cache/", Type: "dir"}}},
 		// a source that is a character device (deb.tarHeader has branches for devices and fifos): the member is at its
 		// destination like every other
 		{"device-source-deb", []wire.Content{c34File("/dev/null", "/opt/dev/null-device"), c34File(j("bin/tool"), "/usr/bin/tool")}},
